@@ -145,3 +145,50 @@ Theorem C01_glv_split_path : forall k, 0 <= k < bn254_r ->
   (k1 + k2 * glv_lambda) mod bn254_r = k mod bn254_r.
 Proof. exact glv_decompose_correct. Qed.
 Print Assumptions C01_glv_split_path.
+
+(* ---- the variable-time sliding-window path (ge_mult_vartime.go: slide and
+   geScalarMultVartime): the recoding is sound for every scalar below 2^255
+   (digits zero or odd with |d| <= 15, value preserved; proved for the literal
+   index-based transcription slide_go as well) and the table-based evaluation
+   computes a.A *)
+From Kyber Require Import Group.Slide.
+
+Theorem C01_slide_sound : forall bytes,
+  Forall is_byte bytes -> bytes <> [] -> last bytes 0 <= 127 ->
+  le_val 2 (slide_go bytes) = le_val 256 bytes /\
+  length (slide_go bytes) = (8 * length bytes)%nat /\
+  Forall digit_ok (slide_go bytes).
+Proof. exact slide_go_sound. Qed.
+Print Assumptions C01_slide_sound.
+
+Theorem C01_vartime_path : forall q bytes (A : zq q),
+    Forall is_byte bytes -> bytes <> [] -> last bytes 0 <= 127 ->
+    ge_scalar_mult_vartime q bytes A = zsmul q (le_val 256 bytes) A.
+Proof. exact ge_scalar_mult_vartime_correct. Qed.
+Print Assumptions C01_vartime_path.
+
+(* ---- the reference curve itself: over GF(2^255-19) (primality PROVED by a
+   Pocklington certificate, Algebra/PrimesEd.v), with d a proved non-square, the
+   affine law is complete and the curve points form a commutative group with no
+   premise left; the extended-coordinate ladder of CurveRef computes the k-fold
+   sum; the 32-byte encoding is injective on curve points. *)
+From Kyber Require Import Decode.DecodeSM Decode.DecodeInst CurveRef.EdComplete CurveRef.EdDecode.
+
+Theorem C01_ed25519_reference_group :
+    ed_on_curve_pt (zzero, zone) /\
+    (forall p q, ed_on_curve_pt p -> ed_on_curve_pt q -> ed_on_curve_pt (Ed_padd p q)) /\
+    (forall p, ed_on_curve_pt p -> ed_on_curve_pt (Ed_pneg p)) /\
+    (forall p q r, ed_on_curve_pt p -> ed_on_curve_pt q -> ed_on_curve_pt r ->
+                   Ed_padd p (Ed_padd q r) = Ed_padd (Ed_padd p q) r) /\
+    (forall p, Ed_padd p (zzero, zone) = p) /\
+    (forall p, Ed_padd (zzero, zone) p = p) /\
+    (forall p, ed_on_curve_pt p -> Ed_padd p (Ed_pneg p) = (zzero, zone)) /\
+    (forall p, ed_on_curve_pt p -> Ed_padd (Ed_pneg p) p = (zzero, zone)) /\
+    (forall p q, Ed_padd p q = Ed_padd q p).
+Proof. exact Ed25519_group. Qed.
+Print Assumptions C01_ed25519_reference_group.
+
+Theorem C01_ed25519_reference_ladder : forall k P a,
+  ed_valid P a -> ed_valid (ed_mul OEd KEd k P) (ed_nmul (Z.to_nat k) a).
+Proof. exact Ed25519_mul_spec. Qed.
+Print Assumptions C01_ed25519_reference_ladder.
